@@ -145,7 +145,9 @@ class Ctx:
             "notes": self.notes,
         }
         validate_evidence(ev)
-        p = VERIF / "evidence" / f"{self.prop_id}.json"
+        # runs against another tree (seeded-change trials) never touch the committed evidence
+        trial = str(REPO) != "/repo"
+        p = VERIF / ("evidence-trial" if trial else "evidence") / f"{self.prop_id}.json"
         p.parent.mkdir(exist_ok=True)
         p.write_text(json.dumps(ev, indent=1, default=str) + "\n")
         return p
